@@ -10,7 +10,10 @@ From RepeV Require Export Base.Word Model.Peers.
 Record frame : Set := mkFrame { f_id : N; f_notify : N; f_tag : N }.
 
 (** how a call ended *)
-Inductive outcome : Set := OGot (f : frame) | OTimeout | OCancel.
+Inductive outcome : Set :=
+| OGot (f : frame) | OTimeout | OCancel
+| ORefused      (* registration refused: the id is already pending (duplicate_request_id_error) *)
+| ONotified.    (* forward_message of a notify message: written, Ok(None), nothing registered *)
 
 (** what the scripted server sends, naming requests by their caller *)
 Inductive sact : Set :=
@@ -26,7 +29,9 @@ Inductive step : Set :=
 | Srv (a : sact)            (* the scripted server sends the frame of [a]; the reader takes it *)
 | Deliver                   (* reader: sender.send(Ok(response)) of the matched frame *)
 | Timeout (c : N)           (* the wait expired: remove_pending(id), return the error *)
-| Cancel (c : N).           (* the call future is dropped: the guard removes the entry *)
+| Cancel (c : N)            (* the call future is dropped: the guard removes the entry *)
+| Forward (c id : N)        (* AsyncClient::forward_message with a caller-supplied id: PendingRequestGuard::register *)
+| FwdNotify (c : N).        (* AsyncClient::forward_message of a notify message: only a write *)
 
 Record mux : Set := mkMux {
   m_next : N;                          (* next_id *)
@@ -92,7 +97,7 @@ Definition isSome {A} (o : option A) : bool := match o with Some _ => true | Non
 (** per-caller program order: Register; Write; then one of (delivery | Timeout | Cancel) *)
 Definition enabled (s : mux) (st : step) : bool :=
   match st with
-  | Register c => negb (isSome (aget (m_issued s) c))
+  | Register c | Forward c _ | FwdNotify c => negb (isSome (aget (m_issued s) c)) && negb (isSome (aget (m_out s) c))
   | Write c => isSome (aget (m_issued s) c) && negb (isSome (aget (m_wire s) c)) && negb (isSome (aget (m_out s) c))
   | Recv _ => true
   | Srv a => isSome (frame_of s a)
@@ -106,8 +111,25 @@ Definition mstep (ws : bool) (s : mux) (st : step) : mux :=
   if negb (enabled s st) then s else
   match st with
   | Register c =>
+      (* the counter moves first; the async and WebSocket clients then refuse an id that is
+         pending (the blocking client would replace the entry: without forwarded ids the
+         case cannot arise, see C04_register_never_collides) *)
+      if isSome (aget (m_pending s) (m_next s)) then
+        mkMux ((m_next s + 1) mod two64) (m_pending s) (m_issued s) (m_wire s) (m_matched s)
+              (m_out s ++ [(c, ORefused)]) (m_sub s) (m_dropped s)
+      else
       mkMux ((m_next s + 1) mod two64) (aset (m_pending s) (m_next s) c)
             (m_issued s ++ [(c, m_next s)]) (m_wire s) (m_matched s) (m_out s) (m_sub s) (m_dropped s)
+  | Forward c id =>
+      if isSome (aget (m_pending s) id) then
+        mkMux (m_next s) (m_pending s) (m_issued s) (m_wire s) (m_matched s)
+              (m_out s ++ [(c, ORefused)]) (m_sub s) (m_dropped s)
+      else
+      mkMux (m_next s) (aset (m_pending s) id c) (m_issued s ++ [(c, id)]) (m_wire s) (m_matched s)
+            (m_out s) (m_sub s) (m_dropped s)
+  | FwdNotify c =>
+      mkMux (m_next s) (m_pending s) (m_issued s) (m_wire s) (m_matched s)
+            (m_out s ++ [(c, ONotified)]) (m_sub s) (m_dropped s)
   | Write c =>
       match aget (m_issued s) c with
       | Some id => mkMux (m_next s) (m_pending s) (m_issued s) (m_wire s ++ [(c, id)]) (m_matched s)
@@ -123,6 +145,25 @@ Definition mstep (ws : bool) (s : mux) (st : step) : mux :=
 
 Definition run (ws : bool) (s : mux) (l : list step) : mux := fold_left (mstep ws) l s.
 
+(** an accepted registration does not reuse an id: the id of a Register or
+    Forward step is either pending (then the step is refused) or was never
+    registered on this connection *)
+Definition fresh_reg (s : mux) (st : step) : bool :=
+  match st with
+  | Register _ => isSome (aget (m_pending s) (m_next s)) || negb (memN (m_next s) (map snd (m_issued s)))
+  | Forward _ id => isSome (aget (m_pending s) id) || negb (memN id (map snd (m_issued s)))
+  | _ => true
+  end.
+
+Fixpoint all_fresh (ws : bool) (s : mux) (l : list step) : bool :=
+  match l with
+  | [] => true
+  | st :: l' => fresh_reg s st && all_fresh ws (mstep ws s st) l'
+  end.
+
+Definition is_forward (st : step) : bool :=
+  match st with Forward _ _ | FwdNotify _ => true | _ => false end.
+
 Fixpoint all_enabled (ws : bool) (s : mux) (l : list step) : bool :=
   match l with
   | [] => true
@@ -136,6 +177,8 @@ Inductive oc : Set :=
 | CGot (t : N)      (* the call returned a response whose body carries tag t *)
 | CTimeout | CCancel
 | CClosed           (* the call failed with an i/o error (the connection ended) *)
+| CRefused          (* the call was refused: its id is already pending *)
+| CNone             (* forward_message returned Ok(None) *)
 | CBad (code : N).  (* anything else: id mismatch error, wrong body, hang *)
 
 Record c04_obs : Set := mkObs {
@@ -158,6 +201,8 @@ Definition oc_of (s : mux) (c : N) : oc :=
   | Some (OGot f) => CGot (f_tag f)
   | Some OTimeout => CTimeout
   | Some OCancel => CCancel
+  | Some ORefused => CRefused
+  | Some ONotified => CNone
   | None => CClosed     (* the server closes at the end: every call still waiting fails *)
   end.
 
@@ -171,19 +216,20 @@ Definition is_notify (st : step) : bool :=
   match st with Srv (SNotify _ _) | Srv (SNotifyRaw _ _) => true | _ => false end.
 Definition step_caller_ok (n : N) (st : step) : bool :=
   match st with
-  | Register c | Write c | Timeout c | Cancel c => c <? n
+  | Register c | Write c | Timeout c | Cancel c | Forward c _ | FwdNotify c => c <? n
   | Srv (SReply k _) | Srv (SNotify k _) => k <? n
   | _ => true
   end.
 
 Definition step_ok (ws : bool) (n : N) (st : step) : bool :=
-  negb (is_raw st) && step_caller_ok n st && (ws || negb (is_notify st)).
+  negb (is_raw st) && step_caller_ok n st && (ws || negb (is_notify st)) && negb (ws && is_forward st).
 
 Definition c04_wf (cs : c04_case) : bool :=
   (c_n cs <? unknown_k) &&
   (N.of_nat (length (c_sched cs)) <? two32) &&
   forallb (step_ok (c_ws cs) (c_n cs)) (c_sched cs) &&
   all_enabled (c_ws cs) mux0 (c_sched cs) &&
+  all_fresh (c_ws cs) mux0 (c_sched cs) &&
   (let s := run (c_ws cs) mux0 (c_sched cs) in
    forallb (fun c => isSome (aget (m_wire s) c) || isSome (aget (m_out s) c)) (callers (c_n cs))).
 
@@ -208,6 +254,13 @@ Definition timed_out (l : list step) (c : N) : bool :=
 Definition cancelled (l : list step) (c : N) : bool :=
   existsb (fun st => match st with Cancel k => k =? c | _ => false end) l.
 
+(** caller c's registration may be refused only if ids were supplied by callers *)
+Definition may_refuse (l : list step) (c : N) : bool :=
+  existsb (fun st => match st with Forward k _ => k =? c | _ => false end) l ||
+  (existsb (fun st => match st with Register k => k =? c | _ => false end) l && existsb is_forward l).
+Definition notify_forwarded (l : list step) (c : N) : bool :=
+  existsb (fun st => match st with FwdNotify k => k =? c | _ => false end) l.
+
 Fixpoint nodupb (l : list N) : bool :=
   match l with [] => true | x :: r => negb (memN x r) && nodupb r end.
 
@@ -221,6 +274,8 @@ Definition ok_caller (l : list step) (c : N) (o : oc) : bool :=
   | CTimeout => timed_out l c
   | CCancel => cancelled l c
   | CClosed => negb (replied l c) || timed_out l c || cancelled l c
+  | CRefused => may_refuse l c
+  | CNone => notify_forwarded l c
   | CBad _ => false
   end.
 
@@ -239,7 +294,7 @@ Definition ok_C04 (cs : c04_case) (o : c04_obs) : bool :=
 Definition oc_eqb (a b : oc) : bool :=
   match a, b with
   | CGot x, CGot y => x =? y
-  | CTimeout, CTimeout | CCancel, CCancel | CClosed, CClosed => true
+  | CTimeout, CTimeout | CCancel, CCancel | CClosed, CClosed | CRefused, CRefused | CNone, CNone => true
   | CBad x, CBad y => x =? y
   | _, _ => false
   end.
